@@ -497,6 +497,16 @@ def post_shard(part, tier, sel=None):
                         tally.violation("clamp:value", case, f"clamped attribute {vals}, expected {exp}", exp, vals)
                     if as_param and not isinstance(m.leaf(nested).w, nn.Parameter):
                         tally.violation("clamp:param-replaced", case, "parameter replaced by a plain tensor", None, None)
+                    # the target is then modified IN PLACE (same tensor object, new contents) and the module called again:
+                    # every run of the hook re-establishes the bound, not only the first
+                    with torch.no_grad():
+                        m.leaf(nested).w.data.mul_(-3.0).add_(0.25)
+                    src2 = m.leaf(nested).w.detach().reshape(-1).tolist()
+                    m()
+                    vals2 = m.leaf(nested).w.detach().reshape(-1).tolist()
+                    exp2 = [min(max(v, lo if lo is not None else -math.inf), hi if hi is not None else math.inf) for v in src2]
+                    if vals2 != exp2:
+                        tally.violation("clamp:second-run-after-inplace-change", {**case, "after_inplace_change": src2}, f"second call: attribute {vals2}, expected {exp2}", exp2, vals2)
                     h.deregister()
     else:
         orders = (1, 2, 3, float("inf"), 0.5)
@@ -542,6 +552,22 @@ def post_shard(part, tier, sel=None):
                                             tally.violation("norm:direction", case, f"slice {src} -> {got} is not the source times one factor", None, None)
                                     elif (got[k] > 0) != ((src[k] > 0) == (sc > 0)):
                                         tally.violation("norm:direction", case, f"slice {src} -> {got} with scale {sc}", None, None)
+                            # second call after the target was changed in place (same object, new contents): normalised again
+                            if not isinstance(sc, complex):
+                                with torch.no_grad():
+                                    m.leaf(nested).w.data.mul_(3.0).add_(0.5)
+                                t2 = m.leaf(nested).w.detach().clone()
+                                m()
+                                w2 = m.leaf(nested).w.detach().to(torch.float64)
+                                for grp in slices(shape, dim):
+                                    src2 = [float(t2[i]) for i in grp]
+                                    if all(v == 0 for v in src2):
+                                        continue
+                                    n2 = pnorm([float(w2[i]) for i in grp], p)
+                                    if abs(n2 - abs(sc)) > 1e-4 * abs(sc):
+                                        tally.violation(f"norm:second-run-after-inplace-change", {**case, "after_inplace_change": src2},
+                                                        f"second call: slice {src2} has {p}-norm {n2}, expected {abs(sc)}", abs(sc), n2)
+                                        break
                             h.deregister()
     tally.sample({"part": part, "tensors": len(tensors)})
     return tally
